@@ -18,6 +18,19 @@ def main(argv):
     a = ap.parse_args(argv)
     seed = int(os.environ.get('VERIF_SEED', '1') or '1')
     from harness.runner import run_property, HarnessError
+    # every temporary file of the run (parent, pool workers, confirmation and fuzz subprocesses) goes below one scratch
+    # directory that the parent removes: pool workers never run their atexit handlers
+    import tempfile, shutil
+    scratch = tempfile.mkdtemp(prefix='verif-run-%s-' % a.prop)
+    os.environ['TMPDIR'] = scratch
+    tempfile.tempdir = scratch
+    try:
+        return _run(a, seed, run_property, HarnessError)
+    finally:
+        shutil.rmtree(scratch, ignore_errors=True)
+
+
+def _run(a, seed, run_property, HarnessError):
     try:
         import importlib
         mod = importlib.import_module('harness.props.' + a.prop.lower())
